@@ -267,6 +267,9 @@ def worker(ctx, shard, which):
         run_case(ctx, mon, c["labels"], c["options"], c.get("tag", "replay"), which, stale=c.get("stale"))
     for k, v in mon.events.items():
         ctx.event(k, v)
+    # layers are observed through the removeOverlap hook or, if the engine no longer goes through it, from the
+    # engine's own reported layering (the property's observation boundary)
+    ctx.event("layers_observed", mon.events["removeOverlap"] + mon.events["layers_from_boundary"])
     mon.uninstall()
 
 
